@@ -1,8 +1,10 @@
 package main
 
 import (
+	"fmt"
 	"go/token"
 	"go/types"
+	"os"
 	"strings"
 
 	"golang.org/x/tools/go/ssa"
@@ -263,7 +265,13 @@ func runC20(c *Ctx) {
 					seq = append(seq, "bytes:"+strings.ReplaceAll(e.Args[0], " ", ""))
 				}
 			}
-			want := []string{"capacity", "unitSize", "len(", "value-of(", ".data"}
+			// fields 4 and 5 are one unit's address and that same unit's bytes: the
+			// address expression is whatever the loop binds (range value or indexed
+			// element of the sorted key list), and the bytes are s.data[<that address>].data
+			want := []string{"capacity", "unitSize", "len(", "key-of(", ".data"}
+			if os.Getenv("AKITA_DE_DEBUG") != "" {
+				fmt.Fprintln(os.Stderr, "checkpoint-order seq:", seq)
+			}
 			if len(seq) != 5 {
 				why = "SaveCheckpoint must write capacity, unit size, unit count and then (address, data) per unit; found " + strings.Join(seq, ", ")
 			} else {
@@ -271,6 +279,9 @@ func runC20(c *Ctx) {
 					if !strings.Contains(seq[i], w) {
 						why = "SaveCheckpoint field " + itoa(i+1) + " is " + seq[i] + ", expected " + w
 					}
+				}
+				if addr := strings.TrimPrefix(seq[3], "u64:"); why == "" && !strings.Contains(seq[4], "["+addr+"]") {
+					why = "SaveCheckpoint writes the address " + addr + " but the bytes " + seq[4] + " of a different unit"
 				}
 			}
 		}
